@@ -136,3 +136,49 @@ theorem gps_roundtrip (g : Gps) (h : g.WF) (hs : g.speedFits) :
   cases valid <;> cases north <;> cases east <;> rfl
 
 end Dmr.Hytera
+
+namespace Dmr.Hytera
+open Dmr Dmr.Gen.Hytera
+
+theorem lp_parse_serialise (p : Lp) (h : p.WF) (hs : p.opcode = lpStandardReport → p.gps.speedFits) :
+    ∃ f, p.frame = .ok f ∧ f.payload.length < 65536 ∧ f.opcode = be2 p.opcode ∧ f.service = svcLP
+      ∧ Lp.fromBytes f.asBytes = .ok p.norm := by
+  obtain ⟨rel, op, rid, ⟨sn, id⟩, res, gps⟩ := p
+  obtain ⟨hop, hrid, ⟨hsn, hid⟩, hrep⟩ := h
+  simp only at hop hrid hsn hid hrep hs
+  have h3 := Nat.mod_eq_of_lt hid
+  have h4 := Nat.mod_eq_of_lt hrid
+  have e0 : enumOf lpResultValues 0 = .ok 0 := enumOf_mem (by decide)
+  have hne : lpStandardRequest ≠ lpStandardReport := by decide
+  have hm1 : lpStandardRequest % 65536 = lpStandardRequest := by decide
+  have hm2 : lpStandardReport % 65536 = lpStandardReport := by decide
+  have em1 : enumOf lpValues lpStandardRequest = .ok lpStandardRequest := enumOf_mem (by decide)
+  have em2 : enumOf lpValues lpStandardReport = .ok lpStandardReport := enumOf_mem (by decide)
+  have sv : svcLP = 8 := rfl
+  rcases hop with rfl | rfl
+  · -- StandardRequest
+    cases rel <;>
+    simp [Lp.frame, Lp.payload, Frame.asBytes, Frame.checked, len16, be2, be4, be3, RadioIp.asBytes,
+      Lp.fromBytes, sl, reliableAndServiceB, reliableAndService, sv,
+      enumOf_mem, svcValues, hdapMsgEnd, RadioIp.fromBytes, bind, Except.bind, pure, Except.pure,
+      ofBe2', ofBe3', ofBe4', h3, h4, e0, Lp.norm, lpResultOK, throw, throwThe, MonadExceptOf.throw,
+      hne, hm1, em1]
+  · -- StandardReport
+    obtain ⟨hres, hg⟩ := hrep rfl
+    obtain ⟨hlen, hparse⟩ := gps_roundtrip gps hg (hs rfl)
+    have hr2 : res < 65536 := by
+      simp only [lpResultValues, List.mem_cons, List.not_mem_nil, or_false] at hres; omega
+    have h2 := Nat.mod_eq_of_lt hr2
+    have er := enumOf_mem hres
+    generalize gps.asBytes = G at hlen hparse
+    have ht : ∀ t : Bytes, List.take 40 (G ++ t) = G := fun t => by
+      rw [← hlen]; exact List.take_left' rfl
+    cases rel <;>
+    simp [Lp.frame, Lp.payload, Frame.asBytes, Frame.checked, len16, be2, be4, be3, RadioIp.asBytes,
+      Lp.fromBytes, sl, reliableAndServiceB, reliableAndService, sv,
+      enumOf_mem, svcValues, hdapMsgEnd, RadioIp.fromBytes, bind, Except.bind, pure, Except.pure,
+      ofBe2', ofBe3', ofBe4', h2, h3, h4, er, Lp.norm, hlen, ht, hparse, throw, throwThe, MonadExceptOf.throw,
+      hm2, em2]
+    all_goals omega
+
+end Dmr.Hytera
